@@ -269,7 +269,11 @@ func (r *runner) run(c Case) {
 			r.out.Stat("script_local_change_where_greatest_head_is_not_last_iterated")
 		}
 		if o.sw.contentErr > 0 {
+			// a replica refused to create a local change on its own healthy tree (e.g. the order id it derived for the
+			// new change collides with a stored one): the states of this case could not be built by legal operations
 			r.out.Stat("script_local_add_error")
+			r.out.Violation(idx, "local-add-failed", "a LOCAL AddContent on a replica built by the script returned an error: "+
+				o.sw.contentErrMsg, nil)
 		}
 		if c.BP >= 0 {
 			r.out.Stat("script_requester_is_replica")
@@ -330,6 +334,19 @@ func main() {
 	for _, ms := range []int{1, 150, 100000} {
 		r.run(Case{Dag: f16, A: full, B: empty, ReqHeads: []int{1}, ReqPath: []int{1}, MaxSize: ms, Variant: "fixed"})
 		r.run(Case{Dag: f16, A: full, B: empty, ReqHeads: nil, ReqPath: nil, MaxSize: ms, Variant: "fixed_empty_request"})
+	}
+	// a local merge on a two-branch tree whose greatest head (99) is not the last iterated one (33):
+	// 10 -> 11 -> 99 and 10 -> 22 -> 23 -> 24 -> 33, then AddContent; a fresh requester asks for everything
+	merge := &Script{NP: 2, Root: Chg{ID: 10, IsSnap: true}, Ops: []Op{
+		{K: "raw", P: 0, New: []Chg{{ID: 11, Prev: []int{10}, Snap: 10}, {ID: 99, Prev: []int{11}, Snap: 10},
+			{ID: 22, Prev: []int{10}, Snap: 10}, {ID: 23, Prev: []int{22}, Snap: 10}, {ID: 24, Prev: []int{23}, Snap: 10},
+			{ID: 33, Prev: []int{24}, Snap: 10}}, Batches: [][]int{{11, 99, 22, 23, 24, 33}}},
+		{K: "content", P: 0, ID: 10001, Pad: 5},
+		{K: "raw", P: 1, New: []Chg{{ID: 40, Prev: []int{10}, Snap: 10}}, Batches: [][]int{{40}}},
+	}}
+	for _, ms := range []int{1, 150, 10 * 1024 * 1024} {
+		r.run(Case{Script: merge, AP: 0, BP: -1, MaxSize: ms, Variant: "heads_and_path"})
+		r.run(Case{Script: merge, AP: 0, BP: 1, MaxSize: ms, Variant: "heads_and_path"})
 	}
 	nDag := 110 * o.Budget
 	if o.Tier == "thorough" {
